@@ -171,7 +171,8 @@ PayloadValid(in) == /\ ~RepeatsAction(in)
 (* null / absent / wrongly typed, a null list element); for the others the spec     *)
 (* makes no claim beyond "an acknowledgement is returned".                          *)
 Mutations == {"null", "absent", "emptyobj", "emptyarr", "string", "number", "bool", "negative", "two64", "huge",
-              "emptystr", "longstr", "numstr", "dupkey", "dupsame", "deep", "deepobj", "rename"}
+              "emptystr", "longstr", "numstr", "dupkey", "dupsame", "deep", "deepobj", "rename",
+              "trailgarbage", "trailobj", "trailbrace", "leadgarbage"}      \* (the last four apply to the whole document only)
 DupMuts == {"dupkey", "dupsame"}
 WrongTypeForList == Mutations \ (DupMuts \cup {"null", "absent", "emptyarr"})
 PA == "orbiter.pre_actions"
@@ -558,7 +559,10 @@ EnvStep(s, in) ==
 
 NoRepeats(seq) == \A i, j \in DOMAIN seq : i # j => seq[i] # seq[j]
 \* statistics entries of the document grid use the test-bed's counterparties only
-StatIdValid(p, c) == p \in ProtoNames /\ (p = "INT" \/ c \in CpUniverse[p])
+ManyChannels == {"channel-" \o ToString(n) : n \in 0..199}
+ManyDomains == {ToString(n) : n \in 0..150}
+StatIdValid(p, c) == p \in ProtoNames /\ (p = "INT" \/ c \in CpUniverse[p] \/ (p = "IBC" /\ c \in ManyChannels)
+                                          \/ (p \in {"CCTP", "HYP"} /\ c \in ManyDomains))
 GenValid(g) ==
   /\ \A i \in DOMAIN g.pp : g.pp[i] \in ProtoNames
   /\ NoRepeats(g.pp)                                     \* a repeated entry cannot be initialised
@@ -711,7 +715,7 @@ ModelStep(pre, in) ==
        pages |-> IF in.t = "query" THEN ModelPages(pre, in.q) ELSE <<>>,
        hasDig |-> FALSE, dig |-> "", peers |-> <<>>,
        hasParse |-> isRecv /\ in.mk = "PAYLOAD",
-       parse |-> [ok |-> in.mk = "PAYLOAD" /\ ParseOK(in) /\ PayloadValid(in), pure |-> TRUE],
+       parse |-> [ok |-> in.mk = "PAYLOAD" /\ ParseOK(in) /\ PayloadValid(in), pure |-> TRUE, hist |-> TRUE],
        rt |-> [built |-> FALSE, parseOk |-> FALSE, equal |-> FALSE, remarshalEqual |-> FALSE, sameMemo |-> FALSE],
        hasCredit |-> isRecv /\ r.ok /\ ForOrbiter(in),
        credit |-> IF isRecv /\ r.ok /\ ForOrbiter(in) THEN <<[d |-> in.base, a |-> in.amt]>> ELSE <<>>,
